@@ -18,7 +18,8 @@ RULE = (
     "committed corpus; G3 1..3-edit mutants of G1/G2 (flipped hex digit, corrupted address digit/type, length field "
     "+-1, truncated/extended payload, verb swap, illegal address shape, array from a non-controller, domain idx, "
     "char insert/delete/replace incl. non-ASCII); G4 junk (blank, comments, evofw3 chatter, annotations in all "
-    "combinations, short lines, Unicode digits, control chars). Each line goes through Packet.from_file, from_port and "
+    "combinations, short lines, Unicode digits, control chars); G5 exhaustive single-digit boundary mutants (each payload hex "
+    "position set to 0/7/8/F) of up to 3 corpus lines per (verb, code, length) group. Each line goes through Packet.from_file, from_port and "
     "from_dict then Message(). Streams: 5-40 lines of one corpus system with 1-6 bad lines at generated positions, "
     "through FileTransport (text and dict sources), and as {'msg', 'ts'} messages through the real MqttTransport._on_message. Serial: CRLF-terminated elements (valid, mutant, chatter, "
     "undecodable bytes) concatenated and cut at generated positions (single read, 1-byte reads, cut between CR and LF, "
@@ -144,6 +145,36 @@ def sweep_pairs(job: dict) -> dict:
 
         hyp_explore(strat, body, job["per_pair"], job["seed"] + i)
         col.note("verb/code pairs visited")
+    return col.dump()
+
+
+def sweep_corpus_digits(job: dict) -> dict:
+    """Exhaustive single-digit boundary mutation of corpus payloads: for (up to 3 lines of) every (verb, code, length) group of the
+    corpus, every payload hex position is set to each of 0 / 7 / 8 / F. Corpus lines pass the parsers' structural asserts, so
+    this reaches the arithmetic behind them (dates, durations, table look-ups) that random regex payloads rarely reach."""
+    from vf.env.quiet import quiet_logs
+    from vf.gen import mutate as M
+
+    quiet_logs()
+    col = Collector()
+    groups: dict[tuple, list[str]] = {}
+    for ln in M.corpus_pkt_lines():
+        fr = ln[4:]
+        if len(fr) < 48 or len(ln) < 52:
+            continue
+        k = (fr[:2], fr[37:41], fr[42:45])
+        g = groups.setdefault(k, [])
+        if len(g) < 3 and ln not in g:
+            g.append(ln)
+    keys = sorted(groups)[job["lo"]::job["step"]]
+    for k in keys:
+        for ln in groups[k]:
+            head, pl = ln[:50], ln[50:].split(" ")[0]
+            for i, ch in enumerate(pl):
+                for r in "078F":
+                    if r != ch:
+                        check_line(col, head + pl[:i] + r + pl[i + 1:], "G5", frozenset(), {"from": ln, "pos": i})
+    col.note("corpus (verb, code, length) groups swept", len(keys))
     return col.dump()
 
 
@@ -531,10 +562,11 @@ def run(ctx: Ctx, col: Collector) -> None:
     k = 16
     step = (npairs + k - 1) // k
     ctx.parallel(sweep_pairs, [{"lo": a, "hi": min(a + step, npairs), "per_pair": ctx.n(20, 1200)} for a in range(0, npairs, step)], col)
+    ctx.parallel(sweep_corpus_digits, [{"lo": i, "step": ctx.workers} for i in range(ctx.workers)], col)
     ctx.parallel(explore_streams, ctx.shards(ctx.n(2_400, 60_000), per_shard_min=20), col)
     ctx.parallel(explore_streams, ctx.shards(ctx.n(1_200, 30_000), per_shard_min=20, via="mqtt"), col)
     ctx.parallel(explore_partitions, ctx.shards(ctx.n(640, 16_000), per_shard_min=10), col)
-    ctx.floors = [("line:G3", "", 0.2), ("outcome:invalid", "", 0.1), ("outcome:msg", "", 0.2), ("stream:valid-after-reject", "stream:text", 0.5)]
+    ctx.floors = [("line:G3", "", 0.1), ("line:G5", "", 0.2), ("outcome:invalid", "", 0.1), ("outcome:msg", "", 0.2), ("stream:valid-after-reject", "stream:text", 0.5)]
     ctx.extra["verb_code_pairs"] = npairs
 
 
